@@ -899,6 +899,21 @@ def rule_component_views(rep: Report, ix, clf: Classifier) -> None:
                     f"component access returns {v.show()} ({v.why}); it must be a field over a view of `self._data_full[...]` (with_ghost_cells=True)",
                     line=p.evs[-1].node.lineno,
                 )
+            # ... for every dtype: without `dtype` the constructor normalises the data with number_array(data, dtype=None),
+            # which converts everything that is not double / complex double -- a converted array is a detached copy
+            call = expand(p.value, p, len(p.evs))
+            if isinstance(call, ast.Call):
+                dt = next((kw.value for kw in call.keywords if kw.arg == "dtype"), None)
+                ok_dt = dt is not None and ast.unparse(dt) in ("self.dtype", "self._data_full.dtype", "self.data.dtype", "self.__data_full.dtype")
+                rep.oblige(f"component-view:{qn}:path{k}: the component field is built with the parent's dtype", ok_dt, ast.unparse(dt) if dt is not None else "dtype omitted")
+                if not ok_dt:
+                    rep.violation(
+                        "C15.component-view",
+                        f"{ref}::dtype",
+                        f"component access builds the field with dtype `{ast.unparse(dt) if dt is not None else 'None (omitted)'}`: the constructor then normalises the data to double precision, so for float32 / complex64 / "
+                        "integer fields the component is a converted *copy* and a write through it is not seen by the parent (the parent's dtype must be passed)",
+                        line=p.evs[-1].node.lineno,
+                    )
         rep.floor(f"returning paths of {qn}", k, 1)
         n += 1
     rep.floor("component access methods", n, 2)
